@@ -34,6 +34,16 @@ func vMapI(kv ...interface{}) *sx.Sexp {
 func vT1(a int64, b string, c, d, p, i *sx.Sexp) *sx.Sexp {
 	return sx.L(sx.A("struct"), sx.A("T1"), sx.L(sx.S("A"), vInt(a)), sx.L(sx.S("B"), vStr(b)), sx.L(sx.S("C"), c), sx.L(sx.S("D"), d), sx.L(sx.S("P"), p), sx.L(sx.S("I"), sx.L(sx.A("iface"), i)))
 }
+func vT2(name string, n float64, ok bool) *sx.Sexp {
+	return sx.L(sx.A("struct"), sx.A("T2"), sx.L(sx.S("Name"), vStr(name)), sx.L(sx.S("N"), vFloat(n)), sx.L(sx.S("Ok"), vBool(ok)))
+}
+func vMapT(kv ...interface{}) *sx.Sexp {
+	x := sx.L(sx.A("smap"), sx.Bool(false), sx.Bool(false))
+	for i := 0; i+1 < len(kv); i += 2 {
+		x.Add(sx.L(sx.S(kv[i].(string)), kv[i+1].(*sx.Sexp)))
+	}
+	return x
+}
 func vPtr(tn string, v *sx.Sexp) *sx.Sexp {
 	if v == nil {
 		return sx.L(sx.A("ptr"), sx.A(tn), sx.A("nil"))
@@ -135,6 +145,9 @@ func newProg(r *h.Rand) *prog {
 		bind("pt", vPtr("T1", inner)),
 		bind("np", vPtr("T1", nil)),
 		bind("n", vNil()),
+		bind("ms", vMapT("a", vT2("na<", 1, true), "b", vT2("nb", 2, false), "c", vT2("", 0, false))),
+		bind("mz", vMapI("k", vInt(0))),
+		bind("me", vMapI("", vStr(r.Pick(specialStrings)), "k", vStr(""))),
 	)
 	p.globals = sx.L(
 		bind("g", vStr(r.Pick(specialStrings))),
@@ -396,6 +409,11 @@ func (g *pgen) stmt(d int) string {
 		return s + "{{end}}"
 	case "range":
 		g.tag("range")
+		if r.Chance(8) {
+			// a loop value stored in an outer variable keeps its value when the ranger advances
+			g.tag("range-capture")
+			return "{{ cap := 0 }}{{range k, v := ms}}{{if k == \"" + r.Pick([]string{"a", "b", "c"}) + "\"}}{{ cap = v }}{{end}}{{end}}[{{cap.Name}}|{{cap.N}}]"
+		}
 		subj := r.Pick([]string{"l", "li", "ls", "m", "el", "nl", "ints(0, 3)", "ints(j, j+2)", "st.C", "slice(0, 1, \"\", \"x\", false)", "l[1:]", "nm", "st.D", "map(\"p\", s, \"q\", 2)"})
 		if g.errPct > 0 && r.Chance(g.errPct) {
 			g.tag("planted-error")
@@ -497,7 +515,7 @@ func (g *pgen) stmt(d int) string {
 		return s + "{{end}}"
 	case "include":
 		g.tag("include")
-		target := r.Pick([]string{`"/inc.jet"`, `"inc"`, `"sub/inc2.jet"`, `"/sub/inc2"`, `"/sub/../inc.jet"`, "incname"})
+		target := r.Pick([]string{`"/inc.jet"`, `"inc"`, `"sub/inc2.jet"`, `"/sub/inc2"`, `"/sub/../inc.jet"`, "incname", `"/page.jet"`, `"/page.jet"`})
 		if g.errPct > 0 && r.Chance(g.errPct) {
 			g.tag("planted-error")
 			target = `"/absent.jet"`
@@ -517,13 +535,17 @@ func (g *pgen) stmt(d int) string {
 		g.errPct = was
 		s := "{{try}}" + body
 		if r.Chance(60) {
-			cv := r.Pick([]string{"", " err", " ex"})
+			cv := r.Pick([]string{"", " err", " ex", " s", " i", " x", " g"})
 			s += "{{catch" + cv + "}}" + r.Pick([]string{"C", "[caught]", "{{s}}", ""})
 			if cv != "" && r.Bool() {
 				s += "{{isset(" + strings.TrimSpace(cv) + ")}}"
 			}
 		}
-		return s + "{{end}}"
+		s += "{{end}}"
+		if r.Chance(40) {
+			s += "[{{isset(s)}}{{ i }}{{isset(x)}}]" // the catch variable must leave no trace in same-named variables
+		}
+		return s
 	case "exec":
 		g.tag("exec")
 		switch r.Intn(4) {
@@ -540,7 +562,7 @@ func (g *pgen) stmt(d int) string {
 		g.tag("isset")
 		args := []string{}
 		n := 1 + r.Intn(3)
-		pool := []string{"m.k", "m.zz", "st.P", "st.P.P", "st.P.P.A", "np", "np.A", "l[1]", "l[9]", "nope", "nope.x", "m", "nm", "nm.k", "n", "s", "e", "z", "ff", "st.D.a", "st.D.zz", "st.C[0]", "st.I", "pt.P", ".A", ".zz", "li[1]", "m[\"k\"]", "st.hidden", "st.Missing", "l[i]", "m[s]"}
+		pool := []string{"m.k", "m.zz", "st.P", "st.P.P", "st.P.P.A", "np", "np.A", "l[1]", "l[9]", "nope", "nope.x", "m", "nm", "nm.k", "n", "s", "e", "z", "ff", "st.D.a", "st.D.zz", "st.C[0]", "st.I", "pt.P", ".A", ".zz", "li[1]", "m[\"k\"]", "st.hidden", "st.Missing", "l[i]", "m[s]", "me[\"\"]", "me[e]", "m[e]", "me.k", "ms.a", "ms.a.Name", "ms.zz.Name", "mz.k", "ms[\"b\"].Ok"}
 		for k := 0; k < n; k++ {
 			args = append(args, r.Pick(pool))
 		}
@@ -599,6 +621,10 @@ func genProgram(r *h.Rand, flavor string) *prog {
 	p.files["/inc.jet"] = "I(" + g.list(1) + ")"
 	p.files["/sub/inc2.jet"] = "J(" + g.list(1) + r.Pick([]string{"", `{{include "../inc.jet"}}`, `{{include "inc3.jet"}}`}) + ")"
 	p.files["/sub/inc3.jet"] = "K{{.}}"
+	// an includable page that extends a layout and overrides one of its blocks
+	p.files["/layout.jet"] = "L<{{block body()}}default{{end}}|{{block side(w=1)}}side{{w}}{{end}}>"
+	p.files["/page.jet"] = `{{extends "/layout.jet"}}` + r.Pick([]string{"", `{{import "/plib.jet"}}`}) + "{{block body()}}page:{{.}}" + r.Pick([]string{"", "{{yield side(w=2)}}", "{{yield extra()}}"}) + "{{end}}"
+	p.files["/plib.jet"] = "{{block extra()}}X{{end}}{{block side(w=3)}}libside{{w}}{{end}}"
 	p.files["/ret.jet"] = g.retFile()
 	g.noInc = false
 	// layout / library
